@@ -1258,6 +1258,65 @@ func vfChurn(f []string) string {
 	return fmt.Sprintf("churn orphans=%d lost=%d overcap=%d drift=%d alias=%d", st.orphans, st.lost, st.overcap, st.drift, st.alias)
 }
 
+// ---------------------------------------------------------------- default configuration: many series
+//
+//	bulk <kind> <cap> <n> <g>
+//
+// The metric is registered with MaxSeriesPerMetric = cap (0 = the field is left at its zero value, i.e. the default cap
+// applies); g goroutines resolve n distinct tuples between them and emit 1 through every handle they get.
+func vfBulk(f []string) string {
+	kind := f[1]
+	cap, _ := strconv.Atoi(f[2])
+	n, _ := strconv.Atoi(f[3])
+	g, _ := strconv.Atoi(f[4])
+	var bks []float64
+	if kind == "h" {
+		bks = []float64{1, 5}
+	}
+	m := vfNewMetric(kind, cap, 1, bks)
+	defer m.r.Shutdown(context.Background())
+	var tombs atomic.Int64
+	var wg sync.WaitGroup
+	bar := &vfBarrier{n: int32(g)}
+	for j := 0; j < g; j++ {
+		wg.Add(1)
+		go func(j int) {
+			defer wg.Done()
+			bar.wait()
+			for i := j; i < n; i += g {
+				h := m.resolve([]string{strconv.Itoa(i)})
+				h.emit(false, "1")
+				if h.tomb() {
+					tombs.Add(1)
+				}
+			}
+		}(j)
+	}
+	wg.Wait()
+	series, sum := 0, uint64(0)
+	cnt, d, u, st := "?", "0", "0", "0"
+	for _, s := range m.r.AppendSnapshot(nil, SnapshotOptions{}) {
+		switch s.Name {
+		case "vf.m":
+			series++
+			if s.Type == MetricHistogram {
+				sum += s.Histogram.Count
+			} else {
+				sum += uint64(s.Value)
+			}
+		case internalMetricSeriesTotal:
+			cnt = vfFloat(s.Value)
+		case internalMetricCardinalityDrops:
+			d = vfFloat(s.Value)
+		case internalMetricUnknownEmits:
+			u = vfFloat(s.Value)
+		case internalMetricStaleEmits:
+			st = vfFloat(s.Value)
+		}
+	}
+	return fmt.Sprintf("bulk series=%d drops=%s tombs=%d sum=%d count=%s unknown=%s stale=%s", series, d, tombs.Load(), sum, cnt, u, st)
+}
+
 func TestVerifC20(t *testing.T) {
 	in, err := os.Open(os.Getenv("VERIF_CASES"))
 	if err != nil {
@@ -1300,6 +1359,8 @@ func TestVerifC20(t *testing.T) {
 				done <- vfReg(f)
 			case "churn", "rchurn":
 				done <- vfChurn(f)
+			case "bulk", "rbulk":
+				done <- vfBulk(f)
 			default:
 				done <- "badline"
 			}
